@@ -414,6 +414,32 @@ def c13(run, replay=None):
                 run.known("K15-long-loop-overflows-stack", "")
             else:
                 run.violation("a script of %d tasks did not complete: %s rc=%r in %.1fs" % (n, o["kind"], o["rc"], o["secs"]), dict(tasks=n, observed=o))
+    # rash started with an OPEN, SILENT standard input (a terminal nobody types at, a pipe nobody writes to): commands that
+    # read their standard input see end-of-file and the run ends
+    sroot = os.path.join(C.SANDBOX, "rs")
+    shutil.rmtree(sroot, ignore_errors=True)
+    os.makedirs(sroot)
+    for body in ("- command: cat\n- debug:\n    msg: after\n", "- command:\n    argv: [sh, -c, 'read x; echo got=$x']\n- debug:\n    msg: after\n",
+                 "- command: \"grep -c x\"\n  ignore_errors: true\n- debug:\n    msg: after\n"):
+        open(os.path.join(sroot, "s.rh"), "w").write("#!/usr/bin/env rash\n" + body)
+        t0 = time.time()
+        pr = subprocess.Popen([C.RASH, "--output", "raw", os.path.join(sroot, "s.rh")], stdin=subprocess.PIPE, stdout=subprocess.PIPE, stderr=subprocess.PIPE, cwd=sroot, start_new_session=True)
+        try:
+            pr.wait(timeout=DEADLINE)
+            out = pr.stdout.read().decode("utf-8", "replace")
+            kind = "exit"
+        except subprocess.TimeoutExpired:
+            import signal
+            os.killpg(pr.pid, signal.SIGKILL)
+            pr.wait()
+            out, kind = "", "timeout"
+        try:
+            pr.stdin.close()
+        except Exception:
+            pass
+        ramps["idle_stdin_%d" % len(ramps)] = (kind, round(time.time() - t0, 2))
+        if kind != "exit" or pr.returncode != 0 or "after" not in out:
+            run.violation("rash with an open, silent standard input and a command that reads it: %s rc=%r stdout=%r" % (kind, pr.returncode, out[-120:]), dict(script=body))
     # many options GIVEN (stacked short flags, repeated) beside a repeated positional: the time must not grow with 2^(options given)
     fdoc = "#!/usr/bin/env rash\n#\n# Usage: prog [options] <file>...\n#\n# Options:\n#   -v  v\n#   -q  q\n#   -f  f\n#   -x  x\n#\n"
     for n in (6, 12, 18, 26):
